@@ -55,11 +55,14 @@ def main():
     finally:
         api.uninstall_all()
     out["failed"] = list(api.FAILED)
+    out["evaluated"] = list(api.EVALUATED)
     want = doc.get("obligation_name")
     base = want.split("[known:")[0] if want else want
     if api.FAILED and out["outcome"] != "precondition-not-satisfied-natively":
         if base in api.FAILED or want in api.FAILED:
             out["outcome"] = "confirmed"
+        elif base is None:
+            out["outcome"] = "other-obligation-failed"
         elif base.startswith(("inv-init:", "inv-step:", "pre@", "side:")):
             # cut-point obligations have no native counterpart: the same inputs making a
             # postcondition of the harness fail on the real code confirm the violation
